@@ -65,6 +65,11 @@ void srv_set_ns_ip(const unsigned char *ip4)
 		ns_ip = INADDR_ANY;
 }
 
+void srv_set_bind_port(int port)
+{
+	bind_port = port;
+}
+
 void srv_sweep(void)
 {
 	/* the two per-iteration loops of tunnel(): clear q_sendrealsoon_new before select(),
